@@ -541,6 +541,24 @@ func Aborting() bool { x := X; return x != nil && x.aborting }
 //go:norace
 func Go(f func()) { GoNamed("", false, f) }
 
+// NextObjID numbers objects of one execution (seeds, identities) deterministically.
+//
+//go:norace
+func NextObjID() int {
+	if x := X; x != nil {
+		x.objSeq++
+		return x.objSeq
+	}
+	passObjSeq++
+	return passObjSeq
+}
+
+var passObjSeq int
+
+// ResetObjIDs restarts the numbering of pass-through mode (a sequential engine calls it before it builds
+// a fresh instance, so that every rebuild of one path sees the same seeds).
+func ResetObjIDs() { passObjSeq = 0 }
+
 // GoLib is what a go statement of the library under test becomes: a background thread. Only the threads
 // the harness starts are callers; the end of an execution with a library goroutine parked (an idle
 // cleanup or owner goroutine) is a normal end, while a caller that can never continue is a deadlock.
